@@ -21,6 +21,8 @@ SOURCES = {
     "C7": ("cte", "c7", "c7", ""),        # a CTE reference (AliasedQuery)
     "D1": ("table", "t4", "", "d1.s4"),   # one table name and one innermost schema name under two parent databases
     "D2": ("table", "t4", "", "d2.s4"),
+    "Q9": ("subq", "q9", "", ""),         # two subqueries WITHOUT an alias (a join gives the joined one an automatic sqN alias)
+    "Q10": ("subq", "q10", "", ""),
     "U8": ("setop", "u8", "u8", ""),      # an aliased set operation (UNION of two selects) used as a source
 }
 
@@ -125,6 +127,8 @@ class Env:
         self.src["T1f"] = P.Table("t1").for_(P.SYSTEM_TIME.as_of("2020-01-01"))
         self.src["Q6"] = Q.from_(P.Table("t6")).select("a", "b", "c").as_("q6")
         self.src["C7"] = P.AliasedQuery("c7")
+        self.src["Q9"] = Q.from_(P.Table("t9")).select("a", "b")
+        self.src["Q10"] = Q.from_(P.Table("t10")).select("a", "b")
         self.src["U8"] = (Q.from_(P.Table("t8")).select("a", "b") + Q.from_(P.Table("t9")).select("a", "b")).as_("u8")
 
     def term(self, t):
